@@ -521,7 +521,7 @@ def self_poisoning(facts, fn_id):
         return False
     import guardfx
 
-    effs = [b for (n, b, i, s) in guardfx.find_effects(body)]
+    effs = [b for (n, b, i, s) in guardfx.find_effects(body) if n != "Store::poison" and b not in pb]
     if not effs:
         return False
     # from each effect call's successors (normal edges), reach an error block without passing a poison block?
